@@ -68,6 +68,8 @@ VARIANTS = {
     "eio-both-nostd": (None, ["--release", "--no-default-features", "--features", "eio,eio-async"], "eiobn", "release"),
     "eio-nostd": (None, ["--release", "--no-default-features", "--features", "eio"], "eion", "release"),
     "eio-async-nostd": (None, ["--release", "--no-default-features", "--features", "eio-async"], "eioan", "release"),
+    # unoptimised (opt-level 0): by-value temporaries of the buffer type really occupy stack
+    "opt0": (None, ["--profile", "opt0"], "opt0", "opt0"),
     "nostd": (None, ["--release", "--no-default-features"], "nostd", "release"),
     "alloc": (None, ["--release", "--no-default-features", "--features", "cb-alloc"], "alloc", "release"),
     "unstable": ("nightly", ["--release", "--features", "unstable"], "unstable", "release"),
@@ -259,13 +261,37 @@ def engine_a(prop, tier, seed):
             violation = (path, f["message"])
             break
     io_cov = {}
-    if prop in ("C10", "C11") and not violation:
-        # C11: "every other operation returns normally" includes the byte-stream operations of u8 buffers
-        # (consume / read / write with every size class, capacity zero included): same engine as C14.
-        # C10: leaking a drain must be safe for zero-sized element types too (they can still own something
-        # through Drop): the zero-sized engine of C19 runs its drain-forget cases under this property as well.
-        sub_engine = "io" if prop == "C11" else "zst"
-        sub_args = ["io", "C11", "--apis", "std"] if prop == "C11" else ["zst"]
+    # Further engines that run under this property as well:
+    #  io  - the byte-stream operations of u8 buffers (std::io traits with their provided methods): C01 "every operation",
+    #        C04 (results independent of the filling of unoccupied bytes and of where the contents wrap), C11 (total for
+    #        every size class, capacity zero included)
+    #  zst - zero-sized element types at extreme capacities (they can still own something through Drop): C02 / C03 / C10
+    #  big - 4 MiB heap-allocated buffers in an unoptimised build on 2 MiB stacks: C11 "every capacity", C12 "boxed"
+    for sub_engine in SUB_ENGINES.get(prop, []):
+        if violation:
+            break
+        if sub_engine == "big":
+            bcov, violation = big_run(prop, tier, seed, t0)
+            io_cov.update(bcov)
+            continue
+        if sub_engine in ("huge", "zfull"):
+            scov, violation = simple_sub_run(prop, tier, seed, t0, sub_engine)
+            io_cov.update(scov)
+            continue
+        if sub_engine == "own":
+            # the leak-safety argument needs the drain to be the only handle on the detached elements: compile-time
+            # witnesses that Drain (and IterMut) cannot be duplicated
+            import c15
+            njobs, problems = c15.subset_problems(["own_"], prop)
+            io_cov["ownership_witness_compilations"] = njobs
+            if problems:
+                q, why, rep = problems[0]
+                rep["property"] = prop
+                path = save_replay(prop, rep)
+                log(f"witness {q['name']} ({q['contract']}): {why}")
+                violation = (path, why)
+            continue
+        sub_args = ["io", prop, "--apis", "std"] if sub_engine == "io" else ["zst"]
         for v in ("checked", "release"):
             out = os.path.join(OUT, f"{prop}.{sub_engine}.{v}.json")
             if os.path.exists(out):
@@ -274,10 +300,10 @@ def engine_a(prop, tier, seed):
                                stdout=subprocess.PIPE, stderr=subprocess.STDOUT, text=True)
             if p.returncode != 0 or not os.path.exists(out):
                 log(p.stdout[-1500:])
-                write_min_evidence(prop, tier, seed, time.time() - t0, 0, f"io engine exit {p.returncode} on {v}")
+                write_min_evidence(prop, tier, seed, time.time() - t0, 0, f"{sub_engine} engine exit {p.returncode} on {v}")
                 inconclusive(f"property={prop} build={v}: {sub_engine} engine exit {p.returncode}")
             rep = json.load(open(out))
-            io_cov[("byte_stream_cases_" if prop == "C11" else "zero_sized_element_cases_") + v] = rep["enumerative"]["evaluations"] + rep["proptest"]["evaluations"]
+            io_cov[("byte_stream_cases_" if sub_engine == "io" else "zero_sized_element_cases_") + v] = rep["enumerative"]["evaluations"] + rep["proptest"]["evaluations"]
             if rep.get("failure"):
                 f = rep["failure"]
                 path = save_replay(prop, {"property": prop, "build": v, "engine": sub_engine, "case": f["case"], "message": f["message"],
@@ -292,7 +318,7 @@ def engine_a(prop, tier, seed):
     wall = time.time() - t0
     cov = merge_reports(prop, reports)
     cov.update(io_cov)
-    cov["evaluations"] += sum(io_cov.values())
+    cov["evaluations"] += sum(v for v in io_cov.values() if isinstance(v, int))
     cov.update(deep_cov)
     cov["evaluations"] += deep_cov.get("fuzz_executions", 0) + deep_cov.get("miri_cases", 0)
     cov["regression_cases_replayed"] = nreg
@@ -306,6 +332,92 @@ def engine_a(prop, tier, seed):
         sys.exit(1)
     log(f"OK property={prop} tier={tier} evaluations={cov['evaluations']} distinct_nontrivial={cov['distinct_nontrivial']} wall={wall:.1f}s")
     sys.exit(0)
+
+
+SUB_ENGINES = {"C01": ["io", "huge"], "C02": ["zst", "zfull", "huge"], "C03": ["zst"], "C04": ["io"], "C07": ["huge"], "C10": ["zst", "own"], "C11": ["io", "big"], "C12": ["big"]}
+
+
+SIMPLE_LABEL = {"huge": "byte_buffers_at_capacities_around_2^32_cases_", "zfull": "full_zero_sized_buffers_at_extreme_capacities_cases_"}
+
+
+def simple_sub_run(prop, tier, seed, t0, engine):
+    """Engines with a flat report {evaluations, distinct_nontrivial, samples, failure}: `huge` (byte buffers with
+    capacities around 2^31..2^32, only the pages around the front are touched) and `zfull` (full zero-sized buffers at
+    extreme capacities).  Both run in the assertion-checked and in the release build."""
+    cov = {}
+    for v in ("checked", "release"):
+        build(v)
+        out = os.path.join(OUT, f"{prop}.{engine}.{v}.json")
+        if os.path.exists(out):
+            os.remove(out)
+        try:
+            p = subprocess.run([binary(v), engine, "--tier", tier, "--seed", str(seed), "--out", out],
+                               stdout=subprocess.PIPE, stderr=subprocess.STDOUT, text=True, timeout=3600)
+        except subprocess.TimeoutExpired:
+            write_min_evidence(prop, tier, seed, time.time() - t0, 0, f"{engine} engine timed out on {v}")
+            inconclusive(f"property={prop} build={v}: the {engine} engine exceeded its time limit")
+        if p.returncode != 0 or not os.path.exists(out):
+            log(p.stdout[-1500:])
+            write_min_evidence(prop, tier, seed, time.time() - t0, 0, f"{engine} engine exit {p.returncode} on {v}")
+            inconclusive(f"property={prop} build={v}: {engine} engine exit {p.returncode}")
+        rep = json.load(open(out))
+        cov[SIMPLE_LABEL[engine] + v] = rep["evaluations"]
+        cov[engine + "_samples"] = rep.get("samples", [])[:3]
+        if rep.get("failure"):
+            f = rep["failure"]
+            path = save_replay(prop, {"property": prop, "build": v, "engine": engine, "case": f["case"], "message": f["message"],
+                                      "rendered": f["rendered"], "generator": "enumerative + proptest" if engine == "huge" else "enumerative", "seed": seed})
+            log(f"failing {engine}-engine case (build {v}): {f['rendered']}")
+            log(f"  {f['message']}")
+            return cov, (path, f["message"])
+    return cov, None
+
+
+def big_run(prop, tier, seed, t0, only=None):
+    """Large boxed buffers in the unoptimised build; 6 processes, each announcing a step before running it.
+    A process that dies (stack overflow, signal) names the step it died in."""
+    build("opt0")
+    parts = 6
+    procs = []
+    for i in range(parts):
+        cmd = [binary("opt0"), "big", "--part", f"{i}/{parts}"] + (["--only", str(only)] if only is not None else [])
+        procs.append(subprocess.Popen(cmd, stdout=subprocess.PIPE, stderr=subprocess.STDOUT, text=True))
+    evals = nontrivial = 0
+    violation = None
+    for p in procs:
+        try:
+            out, _ = p.communicate(timeout=1800)
+        except subprocess.TimeoutExpired:
+            p.kill()
+            write_min_evidence(prop, tier, seed, time.time() - t0, 0, "large-buffer engine timed out")
+            inconclusive(f"property={prop}: the large-buffer engine exceeded its time limit")
+        steps = [l for l in out.splitlines() if l.startswith("STEP ")]
+        done = [l for l in out.splitlines() if l.startswith("DONE ")]
+        if done:
+            rep = json.loads(done[-1][5:])
+            evals += rep["evaluations"]
+            nontrivial += rep["distinct_nontrivial"]
+            if rep.get("failure") and not violation:
+                f = rep["failure"]
+                path = save_replay(prop, {"property": prop, "build": "opt0", "engine": "big", "case": f["case"], "message": f["message"],
+                                          "generator": "enumerative (large boxed buffers, unoptimised build)", "seed": seed})
+                log(f"failing large-buffer case: {json.dumps(f['case'])}")
+                log(f"  {f['message']}")
+                violation = (path, f["message"])
+        elif steps and not violation:
+            idx, case = steps[-1].split(" ", 2)[1:]
+            tail = " | ".join(out.strip().splitlines()[-3:])
+            msg = (f"the process died (exit {p.returncode}) inside this step on a 4 MiB boxed buffer in an unoptimised build with a 2 MiB stack: {tail[-300:]}")
+            path = save_replay(prop, {"property": prop, "build": "opt0", "engine": "big", "case": json.loads(case), "case_index": int(idx), "message": msg,
+                                      "generator": "enumerative (large boxed buffers, unoptimised build)", "seed": seed})
+            log(f"failing large-buffer case: {case}")
+            log(f"  {msg}")
+            violation = (path, msg)
+        elif not violation and p.returncode != 0:
+            log(out[-1500:])
+            write_min_evidence(prop, tier, seed, time.time() - t0, 0, f"large-buffer engine exit {p.returncode}")
+            inconclusive(f"property={prop}: large-buffer engine exit {p.returncode} before any step")
+    return {"large_boxed_buffer_cases": evals, "large_boxed_buffer_nontrivial": nontrivial}, violation
 
 
 def deep_tier(prop, seed):
@@ -368,10 +480,25 @@ def replay_cmd(prop, path):
     if prop in ENGINE_A:
         meta = json.load(open(path))
         variants = [meta["build"]] if meta.get("build") in VARIANTS else ["checked", "release"]
+        if meta.get("program") and meta.get("source"):
+            import c15
+            c15.replay(path, prop)
+        if meta.get("engine") == "big":
+            build("opt0")
+            tmp = os.path.join(OUT, "big-replay-case.json")
+            os.makedirs(OUT, exist_ok=True)
+            json.dump(meta["case"], open(tmp, "w"))
+            p = subprocess.run([binary("opt0"), "big", "--case", tmp], stdout=subprocess.PIPE, stderr=subprocess.STDOUT, text=True, timeout=600)
+            log(p.stdout.strip()[-1500:])
+            done = [l for l in p.stdout.splitlines() if l.startswith("DONE ")]
+            if not done or json.loads(done[-1][5:]).get("failure"):
+                log(f"VIOLATION property={prop} replay={path}")
+                sys.exit(1)
+            sys.exit(0)
         bad = False
         for v in variants:
             build(v)
-            if meta.get("engine") in ("io", "zst"):
+            if meta.get("engine") in ("io", "zst", "huge", "zfull"):
                 p = subprocess.run([binary(v), "replay-" + meta["engine"], path], stdout=subprocess.PIPE, stderr=subprocess.STDOUT, text=True, timeout=120)
                 r, out = ("ok" if p.returncode == 0 else "fail"), p.stdout
             else:
